@@ -45,6 +45,26 @@ theorem treeOfEntries_of_treeSeq (addr : Nat → Bytes) (es : List (Scalar × Sc
   unfold treeOfEntries
   simpa using foldl_treeSet addr es [] (by simpa using h)
 
+/-- the check the driver evaluates on every Tree state is the hypothesis of the Tree theorems -/
+theorem treeSeqB_iff (addr : Nat → Bytes) (es : List (Scalar × Scalar)) : treeSeqB addr es = true ↔ TreeSeq addr es := by
+  induction es with
+  | nil => simp [treeSeqB, TreeSeq]
+  | cons e es ih =>
+    simp only [treeSeqB, Bool.and_eq_true, List.all_eq_true, TreeSeq, List.pairwise_cons]
+    rw [show treeSeqB addr es = true ↔ List.Pairwise (Desc addr) es from ih]
+    constructor
+    · rintro ⟨h1, h2⟩
+      refine ⟨fun f hf => ?_, h2⟩
+      have := h1 f hf
+      unfold Desc
+      cases hc : scalarCmp addr e.1 f.1 with
+      | none => simp [hc] at this
+      | some c => simp only [hc, decide_eq_true_eq] at this; exact ⟨c, rfl, this⟩
+    · rintro ⟨h1, h2⟩
+      refine ⟨fun f hf => ?_, h2⟩
+      obtain ⟨c, hc, hpos⟩ := h1 f hf
+      simp [hc, hpos]
+
 /-! ### store -/
 
 theorem Store.get_lt {st : Store} {a : Nat} {o : Obj} (h : st.get a = some o) : a < st.size := by
